@@ -219,6 +219,10 @@ def analyse(src: Source) -> List[Report]:
     # committed event times never decrease only if the schedulers return the live minimum: order tables and the
     # lazy-deletion protocol (rules shared with C06)
     from ..cfront import CUnit
+    # an in-state that shares its position list / Time object with the global state or with another handler's in-state is moved
+    # by that handler's time-slicing: the extraction must hand out copies (shared with C13)
+    from .c13 import check_extraction_copies
+    check_extraction_copies(prog, rep)
     from .c06 import HEAP_C, check_c_comparisons, check_heap_scheduler, check_list_scheduler
     unit = CUnit(src, HEAP_C)
     check_c_comparisons(unit, rep)
